@@ -89,6 +89,7 @@ func (s *Syncer) syncLoop(ctx context.Context, env *lmdb.Env, r *receiver.Receiv
 			break
 		}
 		s.l.WithError(err).Info("Waiting for initial receiver listing")
+		verifYield(s, "startup.listingFailed")
 		time.Sleep(time.Second)
 	}
 
@@ -352,6 +353,7 @@ func (s *Syncer) syncLoop(ctx context.Context, env *lmdb.Env, r *receiver.Receiv
 func (s *Syncer) LoadOnce(ctx context.Context, env *lmdb.Env, instance string, update snapshot.Update, lastTxnID header.TxnID) (txnID header.TxnID, localChanged bool, err error) {
 	t0 := time.Now() // for performance measurements
 	snap := update.Snapshot
+	verifLoadBegin(s, instance, &update)
 
 	var tTxnAcquire time.Time
 	var tShadow1Start time.Time
